@@ -174,7 +174,11 @@ def wrong_variant(draw, spec, t, v, depth=0):
     if k == "scalar":
         return None if False else draw(st.sampled_from(["s"]))  # nothing is structurally wrong for a custom scalar
     if k == "enum":
-        return draw(st.sampled_from([{"__enum__": "NOPE_NOT_A_VALUE"}, 5, {"k": 1}, [[{"__enum__": "X"}]], True]))
+        # ... including the members' own python values (ints, bools, strings that are not names, and floats equal to the ints):
+        # what a resolver is handed for a member is never what a client may send for it
+        internals = [x["value"] for x in spec["types"][n]["values"] if x["value"] != x["name"]]
+        internals += [float(x) for x in internals if isinstance(x, int) and not isinstance(x, bool)]
+        return draw(st.sampled_from([{"__enum__": "NOPE_NOT_A_VALUE"}, 5, {"k": 1}, [[{"__enum__": "X"}]], True] + internals * 2))
     # input object
     if not isinstance(v, dict):
         v = GS.gen_nonnull(draw, spec, t, depth + 1)
